@@ -476,6 +476,10 @@ pub fn shard(ctx: &Ctx) -> Shard {
         }
         let mut cfg = random_cfg(&mut rng, p.n_keys, p.n_meta, Some(true));
         cfg.validate_data = rng.chance(1, 3);
+        if cfg.bloom != 0 && rng.chance(1, 12) {
+            // pearl's default bloom configuration: index files of several hundred KiB whose filter section dominates
+            cfg.bloom = 2;
+        }
         let mut ops = gen_history(&mut rng, &p);
         // one history in six starts with 9..13 small blobs holding tied versions of the same keys: the directory
         // then has two-digit blob ids, and the order in which a restart lists the blobs (numeric, not by name)
